@@ -7,6 +7,7 @@ import (
 	"fmt"
 	"io"
 	"math/rand"
+	"mime"
 	"net/http"
 	"net/http/httptest"
 	"path"
@@ -35,6 +36,9 @@ type c19Op struct {
 	Consumes []Bs        `json:"consumes,omitempty"`
 	Produces []Bs        `json:"produces,omitempty"`
 	Security *[][]string `json:"security,omitempty"` // nil: not stated
+	// the operation declares an (optional) formData parameter: its consumes list holds form media types only and every
+	// request to it posts a well-formed non-empty form of one of them
+	Form bool `json:"form,omitempty"`
 }
 
 type c19Def struct {
@@ -140,6 +144,7 @@ func (c19) Rule() string {
 		"rarely with upper-case letters or parameters) x registration sets: exact, each single omission, each single addition, case variants of media types/methods/paths, JSON defaults kept or dropped, an operation registered under its full route, random subsets; " +
 		"every declared operation of each validated API is looked up in the real router under base path + template, and (simple descriptions) ONE handler is sent a history of requests: 2-3 rounds over all operations, each round in another order, " +
 		"in round k the k-th alternative requirement satisfied (exactly its schemes), the body's content type one the route admits spelled as declared / in mixed case / with parameters, the Accept header absent, the wildcard, an offer, its type wildcard, weighted lists, two lines - in half of the rounds the same for all operations; " +
+		"one operation in four is a form operation (an optional formData parameter, consumes application/x-www-form-urlencoded and/or multipart/form-data; the exact registrations hold the consumers Validate demands for them) and is always posted a well-formed non-empty form of a media type it lists (multipart under the boundary of the header), one in eight lists a form media type next to its other types; " +
 		"one operation in three shares its path with another one (other method, own produces); after the first round 1 request in 12 comes without credentials; every request is repeated on a fresh API value + context + handler, and the responses of the history are read again at its end; " +
 		"2 cases in 5 go on with 1-3 further batches of registrations on the SAME API value (nothing, a superfluous authenticator/consumer/producer/operation, the JSON defaults dropped, a registration repeated, the exact set), Validate() after each, compared with a fresh API value given all registrations so far. " +
 		"Non-trivial: at least two categories are non-empty, or validation fails, or an operation is exercised."
@@ -168,8 +173,15 @@ func c19Doc(in c19In) string {
 		if o.Security != nil {
 			op["security"] = c19Sec(*o.Security)
 		}
+		var params []any
 		if strings.Contains(o.Path, "{id}") {
-			op["parameters"] = []any{map[string]any{"name": "id", "in": "path", "required": true, "type": "string"}}
+			params = append(params, map[string]any{"name": "id", "in": "path", "required": true, "type": "string"})
+		}
+		if o.Form {
+			params = append(params, map[string]any{"name": "f", "in": "formData", "type": "string"})
+		}
+		if len(params) > 0 {
+			op["parameters"] = params
 		}
 		if paths[o.Path] == nil {
 			paths[o.Path] = map[string]any{}
@@ -349,7 +361,7 @@ func c19DefaultReqs(in c19In, def string) []c19Req {
 	var out []c19Req
 	for i, o := range in.Ops {
 		rq := c19Req{Op: i}
-		if o.Method == "POST" || o.Method == "PUT" {
+		if o.Method == "POST" || o.Method == "PUT" || o.Form {
 			if adm := c19RouteMedia(o.Consumes, in.GConsumes, def); len(adm) > 0 {
 				l := o.Consumes
 				if len(l) == 0 {
@@ -374,12 +386,13 @@ func c19Request(in c19In, rq c19Req) (*http.Request, string) {
 	o := in.Ops[rq.Op]
 	target := c19Target(in, o)
 	var body io.Reader
+	ct := string(rq.CT)
 	if rq.CT != "" {
-		body = strings.NewReader("{}")
+		ct, body = c19Body(ct)
 	}
 	req := httptest.NewRequest(o.Method, target, body)
 	if rq.CT != "" {
-		req.Header.Set("Content-Type", string(rq.CT))
+		req.Header.Set("Content-Type", ct)
 	}
 	for _, a := range rq.Accept {
 		req.Header.Add("Accept", string(a))
@@ -402,6 +415,30 @@ func c19Request(in c19In, rq c19Req) (*http.Request, string) {
 		req.SetBasicAuth(strings.Join(basics, "+"), "p")
 	}
 	return req, target
+}
+
+var c19FormMedia = []string{"application/x-www-form-urlencoded", "multipart/form-data"}
+
+func c19IsForm(mt string) bool { return mt == c19FormMedia[0] || mt == c19FormMedia[1] }
+
+// c19Body: the Content-Type header as sent and the body for a request that announces ct. A form media type gets a
+// well-formed non-empty form (a multipart one under the boundary the header names; a header without one is given one),
+// anything else a small JSON document.
+func c19Body(ct string) (string, io.Reader) {
+	mt, ps, err := mime.ParseMediaType(ct)
+	switch {
+	case err == nil && mt == "multipart/form-data":
+		b := ps["boundary"]
+		if b == "" {
+			b = "xyz"
+			ct += "; boundary=xyz"
+		}
+		return ct, strings.NewReader("--" + b + "\r\nContent-Disposition: form-data; name=\"f\"\r\n\r\nv1\r\n--" + b +
+			"\r\nContent-Disposition: form-data; name=\"g\"\r\n\r\nv2\r\n--" + b + "--\r\n")
+	case err == nil && mt == "application/x-www-form-urlencoded":
+		return ct, strings.NewReader("f=v1&g=v2")
+	}
+	return ct, strings.NewReader("{}")
 }
 
 // what a recorder holds for a request the handler of which ran
@@ -818,8 +855,18 @@ func (c19) Category(inAny any, obsAny any) (string, bool) {
 				}
 				seen[k] = offers
 			}
-			res += fmt.Sprintf("/served/worst-%d/ct-mixed-%d/ct-param-%d/non-last-alternative-%d/same-path-and-accept-other-offers-%d",
-				worst, mixed, param, alt, samePath)
+			// forms posted: 1 = url-encoded, 2 = multipart, 3 = both
+			forms := 0
+			for _, s := range obs.Served {
+				switch mt, _, _ := mime.ParseMediaType(string(s.Req.CT)); mt {
+				case c19FormMedia[0]:
+					forms |= 1
+				case c19FormMedia[1]:
+					forms |= 2
+				}
+			}
+			res += fmt.Sprintf("/served/worst-%d/ct-mixed-%d/ct-param-%d/non-last-alternative-%d/same-path-and-accept-other-offers-%d/forms-%d",
+				worst, mixed, param, alt, samePath, forms)
 		}
 	}
 	if len(obs.More) > 0 {
@@ -1011,6 +1058,13 @@ func (c19) Gen(r *rand.Rand, tier string, i int) any {
 		seen[o.Method+o.Path] = true
 		if r.Intn(2) == 0 {
 			o.Consumes = c19MediaList(r, 2)
+		}
+		switch r.Intn(8) {
+		case 0, 1: // a form operation: formData parameter, consumes one or both form media types
+			o.Form = true
+			o.Consumes = [][]Bs{{Bs(c19FormMedia[0])}, {Bs(c19FormMedia[1])}, {Bs(c19FormMedia[0]), Bs(c19FormMedia[1])}, {Bs(c19FormMedia[1]), Bs(c19FormMedia[0])}}[r.Intn(4)]
+		case 2: // a form media type among the others, no formData parameter (nothing reads the body)
+			o.Consumes = append(o.Consumes, Bs(c19FormMedia[r.Intn(2)]))
 		}
 		if r.Intn(2) == 0 {
 			o.Produces = c19MediaList(r, 2)
@@ -1277,7 +1331,18 @@ func c19GenReqs(r *rand.Rand, in c19In) []c19Req {
 			if r.Intn(8) == 0 {
 				body = !body
 			}
-			if adm := c19RouteMedia(o.Consumes, in.GConsumes, def); body && len(adm) > 0 {
+			if adm := c19RouteMedia(o.Consumes, in.GConsumes, def); o.Form {
+				// a form operation is always posted a form, of a media type it lists (the API default is no form)
+				var forms []string
+				for _, m := range adm {
+					if c19IsForm(m) {
+						forms = append(forms, m)
+					}
+				}
+				if len(forms) > 0 {
+					rq.CT = Bs(c19SpellCT(r, forms[r.Intn(len(forms))]))
+				}
+			} else if body && len(adm) > 0 {
 				rq.CT = Bs(c19SpellCT(r, adm[r.Intn(len(adm))]))
 			}
 			if shared {
